@@ -1,6 +1,7 @@
 """C10 - every call to an exported object gets exactly one correctly addressed reply."""
 from ..engine import Spec, assume, check, reached, HarnessError, notrace, decode_choice, encode_choice
 from ..runner import Ob
+from ..ref_sig import split
 
 PROPERTY = 'C10'
 FUNCS = ('txdbus.objects:DBusObjectHandler.handleMethodCallMessage', 'txdbus.objects:DBusObjectHandler._send_err',
@@ -26,7 +27,7 @@ STUBS = ['recording connection object (sendMessage)']
 PATHS = ['/obj', '/nope']
 IFACES = [None, 'org.t.I1', 'org.t.I2', 'org.t.I0', 'org.t.Unknown', 'org.freedesktop.DBus.Properties']
 MEMBERS = ['Echo', 'Same', 'Pair', 'Nothing', 'Later', 'LaterFail', 'Fail', 'FailNamed', 'FailBadName', 'Who', 'BadRet',
-           'Inherited', 'Missing', 'List1', 'List2', 'Struct1']
+           'Inherited', 'Missing', 'List1', 'List2', 'Struct1', 'Short', 'Long']
 SIGS = [None, 'i', 's']
 SENDER = ':1.9'
 
@@ -34,7 +35,8 @@ SENDER = ':1.9'
 DECL = {
     'org.t.I1': {'Echo': ('i', 'i'), 'Same': ('i', 'i'), 'Pair': ('', 'ii'), 'Nothing': ('', ''), 'Later': ('i', 'i'),
                  'LaterFail': ('i', 'i'), 'Fail': ('i', 'i'), 'FailNamed': ('i', 'i'), 'FailBadName': ('i', 'i'),
-                 'Who': ('', 's'), 'BadRet': ('', 'i'), 'List1': ('i', 'ai'), 'List2': ('i', 'ai'), 'Struct1': ('i', '(i)')},
+                 'Who': ('', 's'), 'BadRet': ('', 'i'), 'List1': ('i', 'ai'), 'List2': ('i', 'ai'), 'Struct1': ('i', '(i)'),
+                 'Short': ('', 'is'), 'Long': ('', 'is')},
     'org.t.I2': {'Same': ('s', 's'), 'Who': ('', 's')},
     'org.t.I0': {'Inherited': ('', 's')},
     'org.freedesktop.DBus.Properties': {'Get': ('ss', 'v'), 'Set': ('ssv', ''), 'GetAll': ('s', 'a{sv}')},
@@ -156,6 +158,14 @@ def _mk_world():
         def dbus_List2(self, x):
             self.log.append(('List2', x))
             return [x, x]
+
+        def dbus_Short(self):
+            self.log.append(('Short',))
+            return (1,)                 # one value under a two-value signature: not encodable
+
+        def dbus_Long(self):
+            self.log.append(('Long',))
+            return (1, 's', 3)          # three values under a two-value signature: not encodable
 
         def dbus_Struct1(self, x):
             self.log.append(('Struct1', x))
@@ -389,8 +399,12 @@ def build(family, p):
                         check(r.body == [text], 'error reply does not carry the exception text')
                     else:
                         check(len(r.body) == 1 and 'bad name failure' in r.body[0], 'error text lost')
-                else:        # BadRet: value not encodable under the declared signature
+                else:        # BadRet / Short / Long: value not encodable under the declared signature
                     check(r._messageType == 3, 'unencodable return value must become an error reply')
+            for r in replies:
+                pr = message.parseMessage(r.rawMessage, [])      # every reply must be a well-formed message
+                n_types = len(split(pr.signature or ''))
+                check(len(pr.body or []) == n_types, 'reply body does not have one value per complete type of its signature')
         reached()
     h.__name__ = 'call'
     wit = []
